@@ -141,6 +141,16 @@ Proof.
     + simpl in H2. inversion H2; subst. rewrite under_app in Hqp. discriminate.
 Qed.
 
+Lemma under_cmp a b e : under a e = true -> under b e = true -> a = b \/ under a b = true \/ under b a = true.
+Proof.
+  intros Ha Hb. apply under_spec in Ha as [r1 ->]. apply under_spec in Hb as [r2 E].
+  apply app_eq_app in E as [l [[H1 H2]|[H1 H2]]].
+  - destruct l as [|c l]; [left; now rewrite app_nil_r in H1|]. simpl in H2. inversion H2; subst.
+    right. right. apply under_app.
+  - destruct l as [|c l]; [left; now rewrite app_nil_r in H1|]. simpl in H2. inversion H2; subst.
+    right. left. apply under_app.
+Qed.
+
 Lemma app_sep_inj {A} (a b r1 r2 : list A) : length a = length b -> a ++ r1 = b ++ r2 -> a = b /\ r1 = r2.
 Proof.
   revert b; induction a as [|x a IH]; intros [|y b] Hl H; simpl in *; try discriminate.
@@ -1893,19 +1903,27 @@ Section Cover.
     - reflexivity.
   Qed.
 
-  Lemma RSync_same w w' k k' r r' : wf_fs w' -> RSync w k r ->
-    (forall e, f_dir e = true -> In e (w_fs w) <-> In e (w_fs w')) ->
+  Lemma RSync_same' w w' k k' r r' : wf_fs w' -> RSync w k r ->
+    (forall e, f_dir e = true -> scope (f_path e) -> In e (w_fs w) <-> In e (w_fs w')) ->
     k_watches k' = k_watches k -> k_next_wd k' = k_next_wd k -> k_queue k' = [] ->
     wfp r' = wfp r -> pfw r' = pfw r -> (forall c x, alookup N.eqb c (mvf r') = Some x -> (c < k_next_cookie k')%N) ->
     RSync w' k' r'.
   Proof.
     intros W' [W Hr I Cv Hq] Hfs Hw Hn Hq' Hwf Hpf Hmv. constructor; try assumption.
-    - destruct Hr as (e & He & Ee & De). exists e. split; [now apply Hfs | auto].
+    - destruct Hr as (e & He & Ee & De). exists e. split; [|auto]. apply Hfs; try assumption.
+      rewrite Ee. unfold scope. destruct (c_recursive C); auto.
     - constructor; rewrite ?Hw, ?Hn, ?Hwf, ?Hpf; try apply I; [|exact Hmv].
-      intros kw Hk. destruct (wi_exact _ _ _ I kw Hk) as (e & He & De & R). exists e. split; [now apply Hfs | auto].
-    - intros e He De Se. destruct (Cv e (proj2 (Hfs e De) He) De Se) as (kw & C1 & C2 & C3). exists kw.
+      intros kw Hk. destruct (wi_exact _ _ _ I kw Hk) as (e & He & De & Se & R). exists e. split; [now apply Hfs | auto].
+    - intros e He De Se. destruct (Cv e (proj2 (Hfs e De Se) He) De Se) as (kw & C1 & C2 & C3). exists kw.
       unfold cov. rewrite Hwf, Hpf, (watch_of_ino_ext k k') by assumption. auto.
   Qed.
+
+  Lemma RSync_same w w' k k' r r' : wf_fs w' -> RSync w k r ->
+    (forall e, f_dir e = true -> In e (w_fs w) <-> In e (w_fs w')) ->
+    k_watches k' = k_watches k -> k_next_wd k' = k_next_wd k -> k_queue k' = [] ->
+    wfp r' = wfp r -> pfw r' = pfw r -> (forall c x, alookup N.eqb c (mvf r') = Some x -> (c < k_next_cookie k')%N) ->
+    RSync w' k' r'.
+  Proof. intros W' S Hfs. apply (RSync_same' w); try assumption. intros e De _. now apply Hfs. Qed.
 
   (* Rename of a file: inside, in, out, replacing a file - the watch state is untouched *)
   Theorem step_rename_file w k r p q w' ep : RSync w k r -> npath p -> npath q ->
@@ -1995,6 +2013,226 @@ Section Cover.
     - cbn [r1 mvf]. apply mvf_aset_lt; [exact 0%N | apply I].
   Qed.
 
+  (* ------------------------------------------------------------------ 2b: a directory moved into the tree from outside *)
+  Lemma ino_unwatched w k r d : wf_fs w -> WInv (w_fs w) k r -> ~ scope d -> watch_of_ino k (ino_of (w_fs w) d) = None.
+  Proof.
+    intros W I Hs. unfold ino_of. destruct (flookup d (w_fs w)) as [e|] eqn:El.
+    - destruct (flookup_some _ _ _ El) as [He Ee]. apply (not_scope_unwatched w k r e W I He). now rewrite Ee.
+    - destruct (watch_of_ino k 0) as [kw|] eqn:Ek; [|reflexivity]. exfalso.
+      apply watch_of_ino_some in Ek as [Hk Ei]. destruct (wi_exact _ _ _ I kw Hk) as (e & He & _ & _ & Ie & _).
+      assert (H0 := wf_fresh w W e He). lia.
+  Qed.
+
+  Lemma scope_under p x : c_recursive C = true -> scope p -> under p x = true -> scope x.
+  Proof.
+    unfold scope. intros -> [->|H] Hu; right; [exact Hu | eapply under_trans; eassumption].
+  Qed.
+
+  (* nothing in scope lies at or below a path that is not in scope and is not an ancestor of the root *)
+  Lemma scope_not_below p x : c_recursive C = true -> ~ scope p -> under p root = false -> scope x ->
+    x <> p /\ under p x = false.
+  Proof.
+    intros Hrec Hp Hpr Hx. split; [intros ->; contradiction|].
+    destruct (under p x) eqn:E; [|reflexivity]. exfalso. unfold scope in *. rewrite Hrec in *.
+    destruct Hx as [->|Hx]; [congruence|].
+    destruct (under_cmp root p x Hx E) as [H|[H|H]]; [apply Hp; now left | apply Hp; now right | congruence].
+  Qed.
+
+  Theorem step_rename_dir_in w k r p q w' ep : RSync w k r -> npath p -> npath q ->
+    c_recursive C = true -> c_fix_movein C = true ->
+    N.land IN_MOVED_FROM (c_mask C) <> 0%N -> N.land IN_MOVED_TO (c_mask C) <> 0%N ->
+    apply_op w (Rename p q) = Some w' ->
+    flookup p (w_fs w) = Some ep -> f_dir ep = true -> ~ scope p -> under p root = false -> scope q ->
+    flookup q (w_fs w) = None ->
+    let k1 := kernel_op k (w_fs w) (Rename p q) in
+    exists r' k' evs, read_batch C (w_fs w') (r, drainq k1, []) (k_queue k1) = Done (r', k', evs) /\ RSync w' k' r'.
+  Proof.
+    intros S Np Nq Hrec Hfix Hmf Hmt Ha Elp Dep Sp Hpr Sq Elq k1. destruct S as [W Hr I Cv Hq].
+    assert (W' : wf_fs w') by exact (wf_apply_op w (Rename p q) w' W (conj Np Nq) Ha).
+    destruct (rename_inv w p q w' W Np Nq Ha) as (ep' & t1 & Elp' & Hne & Hupq & Edq & -> & Hbelow & Hq1).
+    assert (ep' = ep) by congruence. subst ep'.
+    destruct Hq1 as [[_ ->]|(v & Ev & _)]; [|congruence].
+    destruct (flookup_some _ _ _ Elp) as [Hep Eep].
+    destruct Hr as (er & Her & Eer & Der).
+    assert (Hqr : q <> root).
+    { intros E. apply flookup_none in Elq. apply Elq. rewrite E, <- Eer. now apply in_map. }
+    destruct (scope_parent q Nq Sq Hqr) as [Sdq _].
+    destruct (fisdir_in _ _ Edq) as (dq & Hdq & Edq' & Ddq). rewrite <- Edq' in Sdq.
+    destruct (Cv dq Hdq Ddq Sdq) as (kwq & Cwq & Cpq & Cfq).
+    assert (Iq : ino_of (w_fs w) (dirname q) = f_ino dq) by (unfold ino_of; rewrite <- Edq'; now rewrite (flookup_in _ dq (wf_paths w W) Hdq)).
+    assert (Sdp : ~ scope (dirname p)).
+    { intros H. apply Sp. destruct (npath_parts p Np) as (Ep & _). rewrite Ep. now apply scope_child. }
+    assert (Fq : fisdir q (w_fs w) = false) by (unfold fisdir; now rewrite Elq).
+    assert (Fp : fisdir p (w_fs w) = true) by (unfold fisdir; now rewrite Elp).
+    subst k1. cbn [kernel_op w_fs]. rewrite Fq.
+    rewrite rename_kernel; [|exact Hq|].
+    2:{ intros kw Hk. rewrite (wi_mask _ _ _ I kw Hk). now split. }
+    rewrite (ino_unwatched w k r (dirname p) W I Sdp), Iq, Cwq, Fp. cbn [k_queue app].
+    set (c := k_next_cookie k). set (k0 := drainq _). set (t' := frename p q (w_fs w)) in *.
+    destruct (npath_parts q Nq) as (Eq & Gdq & Vbq & Jq).
+    assert (SPq : src_path_of (dirname q) (basename q) = q) by (unfold src_path_of; destruct (basename q); [discriminate Vbq | exact Jq]).
+    assert (Hren : forall e, In e (w_fs w) -> scope (f_path e) -> ren p q e = e).
+    { intros e He Se. destruct (scope_not_below p (f_path e) Hrec Sp Hpr Se) as [E1 E2]. unfold ren.
+      apply beqb_neq in E1. now rewrite E1, E2. }
+    assert (Hin' : forall e, In e (w_fs w) -> In (ren p q e) t') by (intros e He; unfold t'; rewrite frename_map; now apply in_map).
+    assert (I0 : WInv t' k0 r).
+    { apply (WInv_ext' (w_fs w) _ k); try assumption; try reflexivity; [|cbn; lia].
+      intros e He De (kw & Hk & Ei). destruct (wi_exact _ _ _ I kw Hk) as (e' & He' & _ & Se' & Ie' & _).
+      assert (e' = e) by (apply (ino_inj w); try assumption; congruence). subst e'.
+      rewrite <- (Hren e He Se'). now apply Hin'. }
+    assert (Hq' : In (ren p q ep) t' /\ f_path (ren p q ep) = q /\ f_dir (ren p q ep) = true).
+    { split; [now apply Hin'|]. rewrite ren_path, ren_dir, Eep, rk_self. auto. }
+    assert (Fq' : fisdir q t' = true).
+    { apply (in_fisdir q t' (wf_paths _ W')). exists (ren p q ep). apply Hq'. }
+    cbn [read_batch].
+    rewrite (read_one_to_movein _ _ _ _ _ (dirname q)); try (vm_compute; reflexivity).
+    2:{ cbn [mv_to kev k_wd]. now rewrite Cpq, Edq'. }
+    2:{ left. cbn [mv_to kev k_cookie]. destruct (alookup N.eqb c (mvf r)) eqn:E; [|reflexivity].
+        apply (wi_mvf _ _ _ I) in E. unfold c in E. lia. }
+    2:{ cbn [mv_to kev k_mask k_name]. rewrite SPq, Hfix, Hrec, Fq'. reflexivity. }
+    cbn [mv_to kev k_name]. rewrite SPq. cbv zeta.
+    assert (Hps : Forall (dir_in_scope t') (q :: walk_dirs t' q)).
+    { constructor.
+      - exists (ren p q ep). destruct Hq' as (A & B & D). auto.
+      - apply Forall_forall. intros x Hx. apply (walk_dirs_spec _ q W' Fq') in Hx as (e & He & Ee & De & Ue).
+        exists e. repeat split; try assumption. now apply (scope_under q). }
+    destruct (cgo_ok _ W' _ k0 r I0 Hps) as (r2 & k2 & _ & Hd & I2 & (Q2 & N2 & M2 & X2) & Cvps & _).
+    cbn [w_fs] in Hd, I2, X2, Cvps. rewrite Hd.
+    eexists _, _, _. split; [reflexivity|].
+    assert (Hroot : ren p q er = er).
+    { apply Hren; [exact Her|]. rewrite Eer. unfold scope. rewrite Hrec. now left. }
+    constructor; cbn [w_fs]; try assumption.
+    - exists er. split; [rewrite <- Hroot; now apply Hin' | auto].
+    - intros e' He' De' Se'. unfold t' in He'. rewrite frename_map in He'. apply in_map_iff in He' as (e & <- & He).
+      rewrite ren_dir in De'. rewrite ren_path in Se'.
+      destruct (bytes_eq_dec (f_path e) p) as [E|E].
+      + apply Cvps; [now apply Hin'|]. rewrite ren_path, E, rk_self. now left.
+      + destruct (under p (f_path e)) eqn:Eu.
+        * apply Cvps; [now apply Hin'|]. right. apply (walk_dirs_spec _ q W' Fq').
+          exists (ren p q e). split; [now apply Hin'|]. split; [reflexivity|]. split; [now rewrite ren_dir|].
+          rewrite ren_path. apply under_spec in Eu as [s ->]. rewrite rk_under. apply under_app.
+        * rewrite rk_other in Se' by assumption.
+          assert (Hr : ren p q e = e) by (unfold ren; apply beqb_neq in E; now rewrite E, Eu). rewrite Hr.
+          destruct (Cv e He De' Se') as (kw & C1 & C2 & C3). exists kw. apply X2; [rewrite <- Hr; now apply Hin'|].
+          split; [|split]; assumption.
+  Qed.
+
+
+  (* ------------------------------------------------------------------ 2b: directory renames that do not concern the watch state:
+     under a non-recursive watch (only the root is watched), or entirely outside the tree of a recursive watch;
+     the target is absent or an empty directory *)
+  Theorem step_rename_dir_plain w k r p q w' ep : RSync w k r -> npath p -> npath q ->
+    N.land IN_MOVED_FROM (c_mask C) <> 0%N -> N.land IN_MOVED_TO (c_mask C) <> 0%N ->
+    apply_op w (Rename p q) = Some w' -> flookup p (w_fs w) = Some ep -> f_dir ep = true ->
+    p <> root -> q <> root -> under p root = false ->
+    (c_recursive C = false \/ (~ scope p /\ ~ scope q)) ->
+    let k1 := kernel_op k (w_fs w) (Rename p q) in
+    exists r' k' evs, read_batch C (w_fs w') (r, drainq k1, []) (k_queue k1) = Done (r', k', evs) /\ RSync w' k' r' /\
+      wfp r' = wfp r /\ pfw r' = pfw r.
+  Proof.
+    intros S Np Nq Hmf Hmt Ha Elp Dep Hpr Hqr Hupr Hplain k1. assert (S0 := S). destruct S as [W Hr I Cv Hq].
+    assert (W' : wf_fs w') by exact (wf_apply_op w (Rename p q) w' W (conj Np Nq) Ha).
+    destruct (rename_inv w p q w' W Np Nq Ha) as (ep' & t1 & Elp' & Hne & Hupq & Edq & -> & Hbelow & Hq1).
+    assert (ep' = ep) by congruence. subst ep'. destruct (flookup_some _ _ _ Elp) as [Hep Eep].
+    destruct (fisdir_in _ _ Edq) as (dq & Hdq & Edq' & Ddq).
+    assert (Iq : ino_of (w_fs w) (dirname q) = f_ino dq) by (unfold ino_of; rewrite <- Edq'; now rewrite (flookup_in _ dq (wf_paths w W) Hdq)).
+    assert (Fp : fisdir p (w_fs w) = true) by (unfold fisdir; now rewrite Elp).
+    assert (Hrootq : under q root = false).
+    { destruct Hr as (er & Her & Eer & _). rewrite <- Eer. now apply Hbelow. }
+    (* neither p nor q is in scope *)
+    assert (Hsp : ~ scope p /\ ~ scope q).
+    { destruct Hplain as [Hrec|H]; [|exact H]. unfold scope. rewrite Hrec. split; congruence. }
+    destruct Hsp as [Sp Sq].
+    (* directories in scope are not touched by the rename *)
+    assert (Hkeep : forall e, In e (w_fs w) -> scope (f_path e) -> ren p q e = e /\ f_path e <> q).
+    { intros e He Se. split; [|intros E; apply Sq; now rewrite <- E].
+      assert (E1 : f_path e <> p) by (intros E; apply Sp; now rewrite <- E).
+      assert (E2 : under p (f_path e) = false).
+      { destruct (under p (f_path e)) eqn:E; [|reflexivity]. exfalso. unfold scope in Se, Sp.
+        destruct (c_recursive C); [|rewrite Se in E; congruence].
+        destruct Se as [Se|Se]; [rewrite Se in E; congruence|].
+        destruct (under_cmp root p _ Se E) as [H|[H|H]]; [apply Sp; now left | apply Sp; now right | congruence]. }
+      unfold ren. apply beqb_neq in E1. now rewrite E1, E2. }
+    assert (Hsub : forall e, In e t1 -> In e (w_fs w)).
+    { intros e He. destruct Hq1 as [[_ ->]|(v & _ & -> & _)]; [assumption | now apply fremove_in in He]. }
+    assert (Hint1 : forall e, In e (w_fs w) -> f_path e <> q -> In e t1).
+    { intros e He Hn. destruct Hq1 as [[_ ->]|(v & _ & -> & _)]; [assumption | now apply fremove_in]. }
+    assert (Hfs : forall e, f_dir e = true -> scope (f_path e) -> In e (w_fs w) <-> In e (frename p q t1)).
+    { intros e De Se. rewrite frename_map. split.
+      - intros He. destruct (Hkeep e He Se) as [Hr' Hn]. rewrite <- Hr'. apply in_map. now apply Hint1.
+      - intros He. apply in_map_iff in He as (e0 & E0 & He0). assert (He0' := Hsub e0 He0).
+        destruct (bytes_eq_dec (f_path e0) p) as [E|E].
+        + exfalso. apply Sq. rewrite <- E0, ren_path, E, rk_self in Se. exact Se.
+        + destruct (under p (f_path e0)) eqn:Eu.
+          * exfalso. rewrite <- E0, ren_path in Se. apply under_spec in Eu as [s Es]. rewrite Es, rk_under in Se.
+            unfold scope in Se, Sq. destruct (c_recursive C).
+            -- destruct Se as [Se|Se]; [rewrite <- Se, under_app in Hrootq; discriminate|].
+               destruct (under_cmp root q _ Se (under_app q s)) as [H|[H|H]]; [apply Sq; now left | apply Sq; now right | congruence].
+            -- rewrite <- Se, under_app in Hrootq. discriminate.
+          * assert (ren p q e0 = e0) by (unfold ren; apply beqb_neq in E; now rewrite E, Eu). congruence. }
+    (* the kernel: no event for the replaced directory (not watched) *)
+    assert (Uq : watch_of_ino k (ino_of (w_fs w) q) = None) by now apply (ino_unwatched w k r q W I).
+    subst k1. cbn [kernel_op w_fs].
+    set (k2 := knotify (knotify _ _ _ _ _ _) _ _ _ _ _).
+    assert (Ek2 : k2 = {| k_watches := k_watches k; k_next_wd := k_next_wd k;
+              k_queue := match watch_of_ino k (ino_of (w_fs w) (dirname p)) with Some kw => [mv_from kw (fisdir p (w_fs w)) (k_next_cookie k) (basename p)] | None => [] end ++
+                         match watch_of_ino k (ino_of (w_fs w) (dirname q)) with Some kw => [mv_to kw (fisdir p (w_fs w)) (k_next_cookie k) (basename q)] | None => [] end;
+              k_next_cookie := k_next_cookie k + 1 |}).
+    { unfold k2. apply rename_kernel; [exact Hq|]. intros kw Hk. rewrite (wi_mask _ _ _ I kw Hk). now split. }
+    assert (Ekg : (if fisdir q (w_fs w) then kgone k2 (ino_of (w_fs w) q) true else k2) = k2).
+    { destruct (fisdir q (w_fs w)); [|reflexivity]. unfold kgone. rewrite (watch_of_ino_ext k k2) by (rewrite Ek2; reflexivity).
+      now rewrite Uq. }
+    rewrite Ekg, Ek2, Iq, Fp. cbn [k_queue].
+    set (c := k_next_cookie k). set (k0 := drainq _).
+    destruct (npath_parts p Np) as (Ep & Gdp & Vbp & Jp). destruct (npath_parts q Nq) as (Eq & Gdq & Vbq & Jq).
+    assert (SPp : src_path_of (dirname p) (basename p) = p) by (unfold src_path_of; destruct (basename p); [discriminate Vbp | exact Jp]).
+    assert (SPq : src_path_of (dirname q) (basename q) = q) by (unfold src_path_of; destruct (basename q); [discriminate Vbq | exact Jq]).
+    set (r1 := {| wfp := wfp r; pfw := pfw r; mvf := aset N.eqb c p (mvf r); calls := calls r |}).
+    assert (Hwp : alookup beqb p (wfp r) = None).
+    { destruct (alookup beqb p (wfp r)) as [wd|] eqn:E; [|reflexivity]. exfalso.
+      destruct (tight_entry w k r p wd I E) as (e & _ & He & De & Se & Ee & _). apply Sp. now rewrite <- Ee. }
+    rewrite read_batch_app.
+    assert (Hfrom : exists ra evs1,
+      read_batch C (frename p q t1) (r, k0, [])
+        match watch_of_ino k (ino_of (w_fs w) (dirname p)) with Some kw => [mv_from kw true c (basename p)] | None => [] end = Done (ra, k0, evs1) /\
+      (ra = r \/ ra = r1) /\
+      (alookup N.eqb c (mvf ra) = None \/ exists msrc, alookup N.eqb c (mvf ra) = Some msrc /\ alookup beqb msrc (wfp ra) = None)).
+    { destruct (watch_of_ino k (ino_of (w_fs w) (dirname p))) as [kwp|] eqn:Ewp.
+      - destruct (watch_pfw (w_fs w) k r _ kwp I Ewp) as [wp Pp].
+        (* the watched parent is an entry whose path is dirname p *)
+        assert (Ewp' : wp = dirname p).
+        { unfold ino_of in Ewp. destruct (flookup (dirname p) (w_fs w)) as [dp|] eqn:Edp.
+          - destruct (flookup_some _ _ _ Edp) as [Hdp Edp']. destruct (watched_entry w k r dp kwp W I Hdp Ewp) as (_ & _ & (_ & Pp' & _) & _).
+            congruence.
+          - exfalso. apply watch_of_ino_some in Ewp as [Hk Ei]. destruct (wi_exact _ _ _ I kwp Hk) as (e & He & _ & _ & Ie & _).
+            assert (H0 := wf_fresh w W e He). lia. }
+        subst wp. cbn [read_batch]. rewrite (read_one_from _ _ _ _ _ (dirname p)); try (vm_compute; reflexivity); [|exact Pp].
+        cbn [mv_from kev k_cookie k_name]. rewrite SPp. fold r1. eexists r1, _. split; [reflexivity|]. split; [now right|].
+        right. exists p. cbn [r1 mvf wfp]. split; [apply pset_eq | exact Hwp].
+      - exists r, []. split; [reflexivity|]. split; [now left|]. left.
+        destruct (alookup N.eqb c (mvf r)) eqn:E; [|reflexivity]. apply (wi_mvf _ _ _ I) in E. unfold c in E. lia. }
+    destruct Hfrom as (ra & evs1 & -> & Hra & Hlk).
+    assert (Hra_w : wfp ra = wfp r /\ pfw ra = pfw r) by (destruct Hra as [->| ->]; now split).
+    assert (Hto : exists evs2,
+      read_batch C (frename p q t1) (ra, k0, evs1)
+        match watch_of_ino k (f_ino dq) with Some kw => [mv_to kw true c (basename q)] | None => [] end = Done (ra, k0, evs2)).
+    { destruct (watch_of_ino k (f_ino dq)) as [kwq|] eqn:Ewq.
+      - destruct (watched_entry w k r dq kwq W I Hdq Ewq) as (Sdq & _ & (_ & Pq & _) & _).
+        cbn [read_batch]. rewrite (read_one_to_plain _ _ _ _ _ (dirname q)); try (vm_compute; reflexivity).
+        + eexists. reflexivity.
+        + cbn [mv_to kev k_wd]. destruct Hra_w as [_ ->]. now rewrite Pq, Edq'.
+        + exact Hlk.
+        + destruct (c_recursive C) eqn:Hrec; [|now rewrite andb_false_r].
+          exfalso. apply Sq. rewrite Eq. apply scope_child; [now rewrite <- Edq' | exact Hrec].
+      - exists evs1. reflexivity. }
+    destruct Hto as (evs2 & ->). eexists _, _, _. split; [reflexivity|]. destruct Hra_w as [Hw1 Hw2].
+    split; [|now split].
+    apply (RSync_same' w _ k k0 r ra W' S0 Hfs); try reflexivity; try assumption.
+    cbn [k0 drainq kset_queue k_next_cookie]. destruct Hra as [->| ->].
+    - intros c' x Hx. apply (wi_mvf _ _ _ I) in Hx. fold c in Hx. lia.
+    - cbn [r1 mvf]. apply mvf_aset_lt; [exact 0%N | apply I].
+  Qed.
+
   (* ------------------------------------------------------------------ 2b/2c: one step, and sequential histories *)
   Definition mask_ok : Prop :=
     N.land IN_CREATE (c_mask C) <> 0%N /\ N.land IN_MOVED_FROM (c_mask C) <> 0%N /\ N.land IN_MOVED_TO (c_mask C) <> 0%N.
@@ -2007,18 +2245,29 @@ Section Cover.
   | co_rename_file p q ep : npath p -> npath q -> flookup p (w_fs w) = Some ep -> f_dir ep = false ->
       fisdir (dirname p) (w_fs w) = true -> covered_op w (Rename p q)              (* inside, in, out, replacing a file *)
   | co_rename_dir p q ep : npath p -> npath q -> c_recursive C = true -> flookup p (w_fs w) = Some ep -> f_dir ep = true ->
-      scope p -> p <> root -> scope q -> flookup q (w_fs w) = None -> covered_op w (Rename p q).   (* directory, inside the tree *)
+      scope p -> p <> root -> scope q -> flookup q (w_fs w) = None -> covered_op w (Rename p q)    (* directory, inside the tree *)
+  | co_rename_dir_in p q ep : npath p -> npath q -> c_recursive C = true -> c_fix_movein C = true ->
+      flookup p (w_fs w) = Some ep -> f_dir ep = true -> ~ scope p -> under p root = false -> scope q ->
+      flookup q (w_fs w) = None -> covered_op w (Rename p q)                      (* directory, moved in from outside *)
+  | co_rename_dir_plain p q ep : npath p -> npath q -> flookup p (w_fs w) = Some ep -> f_dir ep = true ->
+      p <> root -> q <> root -> under p root = false -> (c_recursive C = false \/ (~ scope p /\ ~ scope q)) ->
+      covered_op w (Rename p q).              (* directory, non-recursive watch or entirely outside the tree *)
 
   Theorem cover_step w k r o w' : mask_ok -> RSync w k r -> covered_op w o -> apply_op w o = Some w' ->
     let k1 := kernel_op k (w_fs w) o in
     exists r' k' evs, read_batch C (w_fs w') (r, drainq k1, []) (k_queue k1) = Done (r', k', evs) /\ RSync w' k' r'.
   Proof.
-    intros (M1 & M2 & M3) S Ho Ha k1. destruct Ho as [o Hq Hn|p Hn|p Hn Hr|p q ep Np Nq El De Ed|p q ep Np Nq Hrec El De Sp Hpr Sq Elq].
+    intros (M1 & M2 & M3) S Ho Ha k1.
+    destruct Ho as [o Hq Hn|p Hn|p Hn Hr|p q ep Np Nq El De Ed|p q ep Np Nq Hrec El De Sp Hpr Sq Elq
+                    |p q ep Np Nq Hrec Hfix El De Sp Hpr Sq Elq|p q ep Np Nq El De Hpr Hqr Hupr Hpl].
     - destruct (step_quiet w k r o w' S Hn Hq Ha) as (evs & H1 & _ & H2). eauto.
     - destruct (step_mkdir w k r p w' S Hn Ha M1) as (r' & k' & evs & H1 & H2 & _). eauto.
     - apply step_rmdir; assumption.
     - destruct (step_rename_file w k r p q w' ep S Np Nq M2 M3 Ha El De Ed) as (r' & k' & evs & H1 & H2 & _). eauto.
     - eapply step_rename_dir_inside; eassumption.
+    - eapply step_rename_dir_in; eassumption.
+    - destruct (step_rename_dir_plain w k r p q w' ep S Np Nq M2 M3 Ha El De Hpr Hqr Hupr Hpl) as (r' & k' & evs & H1 & H2 & _).
+      eauto.
   Qed.
 
   (* op; read-all; op; read-all; ...   (None = the reader crashed) *)
